@@ -12,7 +12,7 @@ from checks.models import ALL_MODELS
 W_MODEL_MISMATCH = ["InstreamFineSediment", "Storage"]
 W_MODELS = [m for m in ALL_MODELS if m not in W_MODEL_MISMATCH]
 
-_W = ["models=" + ",".join(W_MODELS), "n=6"]
+_W = ["models=" + ",".join(W_MODELS), "n=12"]
 
 
 def _w(p):
@@ -21,35 +21,17 @@ def _w(p):
     return Family("W", rtol=1e-9, atol_scale=1e-12, args=_W + ["gomaxprocs=%d" % p], label="W-p%d" % p)
 
 
-class C05Check(Check):
-    """A Go panic in any cell's goroutine kills the process, so a panicking run has no result. When SEVERAL cells of one case
-    panic for different reasons (e.g. RatingCurvePartition: `panic("nan")` in one cell, index out of range in another), which
-    panic is reported is schedule-dependent. Implementation and model must both panic; the panic CLASS is not compared here."""
+# Note: a Go panic in any cell's goroutine kills the process, so a panicking run has no result. When SEVERAL cells of one case
+# panic for different reasons (e.g. RatingCurvePartition: `panic("nan")` in one cell, index out of range in another), which
+# panic is reported is schedule-dependent (observed at gomaxprocs=4/16); vlib.core.compare_streams therefore compares only the
+# fact that both sides panic, not the class.
 
-    def run_family(self, harness, fam, seed, tier, workdir, replay=None):
-        res = super().run_family(harness, fam, seed, tier, workdir, replay)
-        c = res.get("cmp")
-        if c and c["mismatches"] and c["mismatches"] == len(c["detail"]):   # every mismatch is listed
-            def both_panic(d):
-                ti, tm = d["impl"].split(), d["model"].split()
-                return len(ti) >= 2 and len(tm) >= 2 and ti[1] == "panic" and tm[1] == "panic"
-            keep = [d for d in c["detail"] if not both_panic(d)]
-            ignored = len(c["detail"]) - len(keep)
-            if ignored:
-                c["detail"], c["mismatches"] = keep, len(keep)
-                res["stats"].setdefault("notes", None)
-                res["stats"]["notes"] = (res["stats"]["notes"] or []) + [
-                    "%d case(s) panic in implementation and model with different panic classes (several cells panic; which one is "
-                    "reported depends on the schedule): not counted as a disagreement" % ignored]
-        return res
-
-
-CHECK = C05Check(
+CHECK = Check(
     "C05",
     props_modules=["OW.Props.C05", "OW.Props.C05Facts"],
     families=[_w(1), _w(2), _w(4), _w(16),
               # every model with a case generator (no kernel model needed): each case at GOMAXPROCS 1, 2, 4, 16 in one worker
-              Family("WP", args=["n=12"], compare=False)],
+              Family("WP", args=["n=24"], compare=False)],
     level="proof",
     pre_steps=[facts_step, race_step],
     trusted=[
